@@ -906,6 +906,7 @@ def class_of(interp, v):
 def _b_isinstance(interp, args, kwargs, frame):
   v, t = args
   t = interp.resolve(t)
+  v = interp.resolve(v)
   if isinstance(t, SAny) or isinstance(v, SAny):
     if isinstance(v, SAny):
       key = ('isinstance', repr(t))
